@@ -101,7 +101,7 @@ func findLoop(P *Program) *loopParts {
 		return lp
 	}
 	fn := jp.loop
-	eachInstr(fn, func(in ssa.Instruction) {
+	eachInstrDeep(fn, func(in ssa.Instruction) {
 		switch x := in.(type) {
 		case *ssa.Range:
 			if isJoeField(x.X, "subscribers") && jp.inArm("message", x.Block()) {
@@ -535,20 +535,7 @@ func r03_6(c *Ctx) {
 		for _, s := range sources(ret.Results[0]) {
 			switch {
 			case isGlobalLoad(s, "ErrNoTopic"):
-				g := false
-				for _, ifi := range ifsIn(fn) {
-					op, k, succ, ok := cmpConstEdge(ifi, func(v ssa.Value) bool {
-						call, ok := v.(*ssa.Call)
-						if !ok {
-							return false
-						}
-						b, ok := call.Call.Value.(*ssa.Builtin)
-						return ok && b.Name() == "len" && call.Call.Args[0] == ssa.Value(fn.Params[2])
-					})
-					if ok && k == 0 && op == token.EQL && edgeDominates(ifi.Block(), succ, ret.Block()) {
-						g = true
-					}
-				}
+				g := intGuard(fn, ret.Block(), isLenCallOf(func(v ssa.Value) bool { return v == ssa.Value(fn.Params[2]) }), 0, 0, 0)
 				c.check(g, name, P.ipos(ret), "ErrNoTopic only when len(topics)==0", "ErrNoTopic returned without len(topics)==0")
 			case isGlobalLoad(s, "ErrProviderClosed"):
 				g := false
